@@ -9,6 +9,17 @@ K_NIKURADSE = 3.71 * DSTAR * 10 ** (-2.0)    # 1/(-2 log10(k/(3.71 d)))^2 = 1/16
 HEIGHTS_M = {"1": 0, "2": 10, "3": -20}
 
 
+def k_designed(fm, m):
+    """roughness [m] of a pipe designed so that the documented friction law gives lambda_turb = 1/16 for the designed flow m:
+    nikuradse  1/(2 log10(k/(3.71 d)))^2 (independent of the flow);  colebrook  10^-2 = 2.51*4/Re + k/(3.71 d);
+    swamee-jain  10^-2 = k/(3.7 d) + 5.74/Re^0.9   (Re = R0 |m|)"""
+    if fm == "colebrook":
+        return 3.71 * DSTAR * (0.01 - 2.51 * 4.0 / (R0 * abs(m)))
+    if fm == "swamee-jain":
+        return 3.7 * DSTAR * (0.01 - 5.74 / (R0 * abs(m)) ** 0.9)
+    return K_NIKURADSE
+
+
 def pamb_ubar(h):
     """documented barometric formula (oracle table, DESIGN D2), micro-bar"""
     return int(round(1.01325 * (1 - h * 0.0065 / 288.15) ** 5.255 * 1e6))
@@ -75,8 +86,11 @@ def build(s, labels=None, var=None):
         alpha = 0.0 if f == 1.0 else -math.log(f) * 4000.0 * abs(th["m"]) / (math.pi * DSTAR * N * DSTAR)
         return {"u_w_per_m2k": alpha, "text_k": AMB[th["te"]]}
 
-    def mk(kind, a, b, N, zeta, sec, ha=None, hb=None, th=None):
+    fm = s.get("fm", "nikuradse")
+
+    def mk(kind, a, b, N, zeta, sec, ha=None, hb=None, th=None, mdes=None):
         """returns (table, label of the element at the a-end, label at the b-end)"""
+        kr = K_NIKURADSE if (fm == "nikuradse" or not mdes) else k_designed(fm, mdes)
         if kind == "pipe":
             if var.get("split") and sec > 1:
                 # n sections == n pipes of 1/n length in series (intermediate junctions at interpolated height)
@@ -91,7 +105,7 @@ def build(s, labels=None, var=None):
                     else:
                         nxt = b
                     pl = pp.create_pipe_from_parameters(net, prev, nxt, length_km=N * DSTAR / 1000.0 / sec,
-                                                        inner_diameter_mm=DSTAR * 1000.0, k_mm=K_NIKURADSE * 1000.0,
+                                                        inner_diameter_mm=DSTAR * 1000.0, k_mm=kr * 1000.0,
                                                         loss_coefficient=zeta / sec, sections=1, index=nextlab("pipe"),
                                                         **thermal_kw(N, th))
                     first = pl if first is None else first
@@ -99,7 +113,7 @@ def build(s, labels=None, var=None):
                     prev = nxt
                 return "pipe", first, last
             l = pp.create_pipe_from_parameters(net, a, b, length_km=N * DSTAR / 1000.0,
-                                               inner_diameter_mm=DSTAR * 1000.0, k_mm=K_NIKURADSE * 1000.0,
+                                               inner_diameter_mm=DSTAR * 1000.0, k_mm=kr * 1000.0,
                                                loss_coefficient=zeta, sections=sec, index=nextlab("pipe"),
                                                **thermal_kw(N, th))
             return "pipe", l, l
@@ -129,12 +143,13 @@ def build(s, labels=None, var=None):
             continue
         x, y = (k, n["par"]) if n["rev"] else (n["par"], k)
         th = {"fd": n.get("fd", 1), "te": n.get("te", 1), "dT": n.get("dT", 0), "m": s["flows"][k - 1]} if "flows" in s else None
-        meta["branch"][k] = mk(n["kind"], lab[x], lab[y], n["N"], float(n["zeta"]), n["sec"], hm(x), hm(y), th)
+        mdes = (s.get("mflows") or s.get("flows") or {}) and (s.get("mflows") or s.get("flows"))[k - 1]
+        meta["branch"][k] = mk(n["kind"], lab[x], lab[y], n["N"], float(n["zeta"]), n["sec"], hm(x), hm(y), th, mdes)
     for i, c in enumerate(s["chords"], start=1):
         z = c["zeta"][0] / c["zeta"][1]
         x, y = (c["b"], c["a"]) if c["rev"] else (c["a"], c["b"])
         th = {"fd": c.get("fd", 1), "te": c.get("te", 1), "dT": 0, "m": c["mc"]} if "flows" in s else None
-        meta["chord"][i] = mk(c["kind"], lab[x], lab[y], c["N"], z, c["sec"], hm(x), hm(y), th)
+        meta["chord"][i] = mk(c["kind"], lab[x], lab[y], c["N"], z, c["sec"], hm(x), hm(y), th, c["mc"])
     for k, n in enumerate(nodes, start=1):
         d = n["d"]
         if d == 0:
